@@ -40,6 +40,8 @@ _op = st.one_of(
     st.tuples(st.just("field"), _tgt, _name, _word),
     st.tuples(st.just("bulleted_list"), _tgt, st.lists(_word, min_size=1, max_size=4)),
     st.tuples(st.just("enumerated_list"), _tgt, st.lists(_word, min_size=1, max_size=4)),
+    st.tuples(st.just("enumerated_list"), _tgt, st.lists(_word, min_size=9, max_size=13)),
+    st.tuples(st.just("bulleted_list"), _tgt, st.lists(_word, min_size=9, max_size=11)),
     st.tuples(st.just("directive"), _tgt, _name, st.lists(_word, max_size=2)),
     st.tuples(st.just("directive"), _tgt, _name, st.lists(_word, max_size=2)),
     st.tuples(st.just("option"), _tgt, _name, st.one_of(st.just(""), _word)),
